@@ -66,6 +66,8 @@ def tasks(tier):
     # the operation itself raises the library's own exceptions (a nested policy ran out / a nested
     # breaker is open) and cancellation-type exceptions
     cfgs.append(dict(base, M=3, max_unknown=None, alphabet=ALPHA + ["nested", "coe", "kbd"]))
+    # callbacks that are falsy callable objects (every entry point must honour them alike)
+    cfgs.append(dict(base, M=3, max_unknown=None, callable_kind="falsy"))
     # async entry points are handed callbacks that return awaitable objects (not coroutines)
     cfgs.append(dict(base, M=3, max_unknown=None, async_awaitables=True))
     for cfg in cfgs:
@@ -98,6 +100,14 @@ def tasks(tier):
                 out.append({"family": "agree-breaker", "cfg": dict(c3, script_prefix=[first]),
                             "entry": "Policy.execute", "bound": bound, "variants": POLICY6,
                             "weight": w // 2 + 1})
+    # retry-less policies: breaker state x abort request on entry
+    P0 = ["Policy0.call", "Policy0.execute", "AsyncPolicy0.call", "AsyncPolicy0.execute"]
+    for pre in ([], [("fail", "T")], [("fail", "T"), ("tick", 2)]):
+        cfg = dict(M=1, alphabet=["ok", "x:T", "x:P", "abort"], abort=True, operation="opname",
+                   breaker={"threshold": 1, "window": 8, "recovery": 2, "trip_on": ["T", "U", "P"],
+                            "pre": pre})
+        out.append({"family": "agree-noretry", "cfg": cfg, "entry": "Policy0.execute", "bound": 2,
+                    "variants": P0})
     return out
 
 
@@ -115,6 +125,8 @@ def delivery(norm_end):
             return ("value", val)
         if reason == "ABORTED":
             return ("aborted",)
+        if isinstance(lexc, str) and lexc.startswith("foreign:") and cause in (None, "exception"):
+            return ("raised", lexc.split(":", 1)[1])   # an exception created by the library
         if cause == "result" or reason == "SCHEDULED":
             return ("exhausted", reason, attempts, lk, lexc, lres, nxt)
         if cause == "exception":
